@@ -78,7 +78,10 @@ def _case(draw, knob):
         states["function"] = draw(st.sampled_from(("missing", "empty", "absent")))
     if all(v is None for v in states.values()):
         states[others[0]] = "agreeing"
-    return {"ir": draw(_ir()), "stale_ir": draw(_ir()), "truth": truth, "states": states, "method": method}
+    # the class target may be nested in another class (Outer.TargetClass); creating a nested class that does not exist yet
+    # is the same shape as creating a method (finding KF-N03), so core: nested only when the class is already there
+    nested = "class" in states and states["class"] in ("stale", "agreeing") and draw(st.booleans())
+    return {"ir": draw(_ir()), "stale_ir": draw(_ir()), "truth": truth, "states": states, "method": method, "nested": nested}
 
 
 def strategy(mode, knob=None):
@@ -87,7 +90,8 @@ def strategy(mode, knob=None):
 
 def valid(case):
     try:
-        return (isinstance(case, dict) and set(case) == {"ir", "stale_ir", "truth", "states", "method"}
+        return (isinstance(case, dict) and set(case) - {"_not_stale", "nested"} == {"ir", "stale_ir", "truth", "states", "method"}
+                and isinstance(case.get("nested", False), bool) and not (case.get("nested") and case["truth"] == "class")
                 and domain.valid_ir(case["ir"]) and domain.valid_ir(case["stale_ir"]) and case["truth"] in KEYS
                 and set(case["states"]) == set(k for k in KEYS if k != case["truth"])
                 and all(v in project.STATES + (None,) for v in case["states"].values())
@@ -98,6 +102,8 @@ def valid(case):
 
 def case_tags(case):
     tags = {"truth=" + case["truth"], "method" if case["method"] else "toplevel"}
+    if case.get("nested"):
+        tags.add("nested_class")
     given = [k for k, v in case["states"].items() if v is not None]
     tags.add("given=%d" % (len(given) + 1))
     if len(given) == 1:
@@ -132,12 +138,12 @@ def setup_project(case, d):
     for k, state in case["states"].items():
         if state is None:
             continue
-        project.write_state(paths[k], k, state, gold, lambda: domain.to_ir(case["stale_ir"]), method)
+        project.write_state(paths[k], k, state, gold, lambda: domain.to_ir(case["stale_ir"]), method, nested=case.get("nested", False))
         if state == "stale":
             # a "stale" definition that happens to equal the agreeing one is not stale
             with open(paths[k]) as f:
                 stale_src = f.read()
-            project.write_state(paths[k] + ".agree", k, "agreeing", gold, None, method)
+            project.write_state(paths[k] + ".agree", k, "agreeing", gold, None, method, nested=case.get("nested", False))
             with open(paths[k] + ".agree") as f:
                 same = f.read() == stale_src
             os.remove(paths[k] + ".agree")
@@ -146,7 +152,7 @@ def setup_project(case, d):
     return paths, gold, truth_src
 
 
-def judge_target(k, path, gold_case, method, tags, discs, pre=None, state=None):
+def judge_target(k, path, gold_case, method, tags, discs, pre=None, state=None, nested=False):
     if state == "stale" and pre is not None and os.path.isfile(path):
         with open(path, "rb") as f:
             if f.read() == pre:
@@ -159,13 +165,13 @@ def judge_target(k, path, gold_case, method, tags, discs, pre=None, state=None):
     with open(path) as f:
         src = f.read()
     try:
-        defs, tree = project.find_defs(src, k, method)
+        defs, tree = project.find_defs(src, k, method, nested)
     except SyntaxError as e:
         discs.append(Disc("target:unparsable", k, "%s: %r" % (e, src[:200]), (), tags))
         return
     if len(defs) != 1:
         discs.append(Disc("target:definition-count:%d" % min(len(defs), 2), k,
-                          "expected exactly one %s, file has %d: %r" % (project.target_name(k, method), len(defs), src[:300]), (), tags))
+                          "expected exactly one %s, file has %d: %r" % (project.target_name(k, method, nested), len(defs), src[:300]), (), tags))
         if not defs:
             return
     kind = project.K2KIND[k]
@@ -200,7 +206,7 @@ def run_case(case):
         given = [case["truth"]] + [k for k, v in case["states"].items() if v is not None]
         pre = project.snapshot(d)
         try:
-            project.run_sync(paths, case["truth"], case["method"], given)
+            project.run_sync(paths, case["truth"], case["method"], given, nested=case.get("nested", False))
         except BaseException as e:
             if isinstance(e, KeyboardInterrupt):
                 raise
@@ -210,7 +216,7 @@ def run_case(case):
             if v is None:
                 continue
             judge_target(k, paths[k], gold_case, case["method"], tags, discs, pre.get(os.path.basename(paths[k])),
-                         "agreeing" if k in case.get("_not_stale", ()) else v)
+                         "agreeing" if k in case.get("_not_stale", ()) else v, nested=case.get("nested", False))
     finally:
         shutil.rmtree(d, ignore_errors=True)
     return CaseResult(discs, tags, nontrivial, "truth=%s states=%s: %s" % (case["truth"], case["states"], "ok" if not discs else discs[0].aspect))
